@@ -1,7 +1,7 @@
 SPECIFICATION Spec
 CONSTANTS
   ValNames = {"i1", "i2", "bT", "f1", "f1c", "f1f", "abc", "ABC", "abc!", "abd", "none", "err", "errx", "L12", "L12c", "T12", "Labc", "LABC", "L0", "empty", "i0", "D_A1", "D_a2", "D_a1", "huge", "T1a", "Brepr", "Vobj", "DC12", "DC13", "T123", "L1a", "S1", "S2", "S12", "Sf", "Sg", "nan", "inf"}
-  Asserts = {"equal", "not_equal", "less", "less_equal", "greater", "greater_equal", "in", "not_in", "is_none", "is_not_none", "true", "false", "length_equal", "length_not_equal", "length_less", "length_greater_equal", "is", "is_not", "is_instance", "not_is_instance", "regex", "not_regex", "output", "not_output", "output_contains", "not_output_contains", "type", "not_type"}
+  Asserts = {"equal", "not_equal", "less", "less_equal", "greater", "greater_equal", "in", "not_in", "is_none", "is_not_none", "true", "false", "length_equal", "length_not_equal", "length_less", "length_greater_equal", "is", "is_not", "is_instance", "not_is_instance", "regex", "not_regex", "output", "output_exact", "not_output_exact", "not_output", "output_contains", "not_output_contains", "type", "not_type"}
   MaxCases = 3
   Flags = {}
 INVARIANT Complement
